@@ -2249,7 +2249,7 @@ func (x *Exec) checkExit(p *Path, res []Val, panicked bool) {
 		// no contract: the locks taken must still be released on every exit (C09 roots)
 		for k := range p.locks {
 			parts := strings.Split(k, "\x00")
-			x.oblige(p, "lock", "released_at_exit", "false", []string{"C09"}, "lock "+parts[len(parts)-1]+" still held at exit")
+			x.oblige(p, "lock", "released_at_exit", "false", nil, "lock "+parts[len(parts)-1]+" still held at exit")
 		}
 		return
 	}
@@ -2289,7 +2289,7 @@ func (x *Exec) checkExit(p *Path, res []Val, panicked bool) {
 			}
 		}
 		if !held {
-			x.oblige(p, "lock", "released_at_exit", "false", []string{"C09"}, "lock "+parts[len(parts)-1]+" still held at exit")
+			x.oblige(p, "lock", "released_at_exit", "false", nil, "lock "+parts[len(parts)-1]+" still held at exit")
 		}
 	}
 	if !panicked {
